@@ -20,6 +20,8 @@ KINDS = [
     'print(1 < "")', 'print(true && 1)', 'print($"${"}")', 'x := [1 + ""]', 'x := {"k": nope}', 'print(two(nope, 1))', 'print(obj.f(1 + ""))', '_ = nope', 'print(-9223372036854775807 - 2)', 'print(3037000500 * 3037000500)',
     'fn brk() {\n    break\n}\nbrk()', 'fn cnt() {\n    if true {\n        continue\n    }\n}\nwhile true {\n    cnt()\n}', 'break', 'continue', 'return 1',
     'for [i, v] in [1] {\n    (fn () {\n        break\n    })()\n}',
+    'fn area([w, h]) {\n    return w * h\n}\nprint(area([1, 2, 3]))', 'fn show({name}) {\n    return name\n}\nprint(show({}))', 'fn pair(a, [b, ..r]) {\n    return a\n}\nprint(pair(1, 2))',
+    'fn wrap(v) {\n    return area2(v)\n}\nfn area2([w, h]) {\n    return w\n}\nprint(wrap([1]))', 'n2 := 1\nn2 += nope', 'lst[0] += nope', 'obj.a -= two(1)', 'n3 := 1\nn3 *= [1][3]',
 ]
 HEAD = ['lst := [1, 2]', 'obj := {"a": 1, "f": fn (v) {', '    return v', '}}', 'fn two(a, b) {', '    return a', '}', 'fn rest1(a, ..r) {', '    return a', '}']
 
